@@ -1751,3 +1751,23 @@ def parent_search_climbs(ctx: Ctx, rep: Report, rid: str):
             ok = bool(order) and order.index(moving[0]) < order.index(climbing[0]) if (moving[0] in order and climbing[0] in order) else False
     rep.check(rid, "_get_parent_conflict|climb", gp, ok, "path := parent; parent := dirname(path) inside the loop",
               "the ancestor walk of _get_parent_conflict no longer climbs (only the immediate parent is examined): a changed grand-parent is synced after its descendants")
+
+
+def notifications_go_through_the_queue(ctx: Ctx, rep: Report, rid: str):
+    """CloudSync.handle_notification is the application's callback: it is handed to the NotificationManager, which calls it from its own loop, one notification at a
+    time, in the order raised.  Nothing in the engine calls it directly - a direct call overtakes what is queued, runs on the caller's thread, and lets a raising
+    handler break the caller."""
+    n = 0
+    for f in ctx.prog.functions.values():
+        if isinstance(f.node, ast.Lambda) or not f.module.name.startswith("cloudsync") or ".tests" in f.module.name:
+            continue
+        for c_ in [x for x in ctx.own_nodes(f) if isinstance(x, ast.Call) and isinstance(x.func, ast.Attribute) and x.func.attr == "handle_notification"]:
+            n += 1
+            rep.violation(rid, "%s|direct handle_notification" % f.name, ctx.line(f, c_), "`%s` calls the application's notification handler directly instead of queueing through "
+                          "the NotificationManager: it is delivered out of order, on this thread, and a raising handler propagates here" % ast.unparse(c_)[:70], func=f.qname)
+    cs = ctx.prog.func("CloudSync.__init__")
+    # (handed over as a bound method or through a forwarding lambda)
+    handed = [x for x in ast.walk(cs.node) if isinstance(x, ast.Call) and "NotificationManager" in ast.unparse(x.func)
+              and any(isinstance(y, ast.Attribute) and y.attr == "handle_notification" for a in list(x.args) + [k.value for k in x.keywords] for y in ast.walk(a))]
+    rep.check(rid, "CloudSync.__init__|handler registered", cs, bool(handed), "handle_notification is handed to the NotificationManager as its callback",
+              "the application's handler is no longer registered with the NotificationManager")
